@@ -252,7 +252,7 @@ func compareView(sys *tarfs.FS, t *otree, rnd func(int) int) []failure {
 					add("readdir", "ReadDir(%q): entry %q has Info %v %d %v, Stat of it gives %v %d %v", w.path, e.Name(), ei.Mode(), ei.Size(), ei.ModTime().Unix(), si.Mode(), si.Size(), si.ModTime().Unix())
 				}
 			}
-			if nPaged < 4 {
+			if nPaged < 4 && !t.flags.aliasDup { // with twins two Opens of one name may meet different inodes
 				nPaged++
 				for _, msg := range checkPaging(sys, w.path, es) {
 					add("paging", "%s", msg)
